@@ -275,6 +275,62 @@ def noh2_vs_cog(model, res):
                        % (name, ka[:200], (pieces[0] if pieces else kb)[:200])))
 
 
+def noh_vs_cog19(model, res):
+    """Noh and Cog19 are the same problem (uniform inflow u0 < 0 of a gamma-law gas) in two notations: with u0 = -|u0|
+    substituted (both constructors reject u0 >= 0 / take |u0|), density, velocity, pressure and specific internal energy have
+    the same normal form on every piece, and the pieces are separated by the same shock position."""
+    keys = ['geometry', 'gamma', 'rho0', 'u0', 'Gamma']
+    out = {}
+    for cname in ('exactpack.solvers.noh.noh1:Noh', 'exactpack.solvers.cog.cog19:Cog19'):
+        cls = model.get_class(cname)
+        b = Builder(model)
+        objn, ret = b.run_solver(cls)
+        ev = NFEval(keys)
+        for n in b.trace:
+            if n.kind == 'param' and n.val == 'u0':
+                ev.memo[n.nid] = ev.mul(ev.num(-1), ev.atom('param:-u0'))
+        sols = [l for l in phi_leaves(ret) if l.kind == 'call' and l.val == 'exactpack.base.ExactSolution']
+        if not sols:
+            raise AnalysisError('%s returns no ExactSolution' % cname)
+        sol = sols[-1]
+        data, names = sol.args[0], (sol.args[1] if len(sol.args) > 1 else sol.kw.get('names'))
+        out[cname] = (ev, {a.val: ev.nf(d) for a, d in zip(names.args, data.args)})
+    (ev1, f1), (ev2, f2) = out.values()
+    ev2.sums.update(ev1.sums)
+    ci = model.get_class('exactpack.solvers.cog.cog19:Cog19')
+    from ..ratnf import NFSym, is_zero
+
+    def same(x, y):
+        if ev2.equal(x, y):
+            return True
+        try:
+            return is_zero(NFSym(ev2).conv(ev2.add(x, y, -1)))      # rational normal form with canonical symbolic exponents
+        except TypeError:
+            return False
+    for name in ('density', 'velocity', 'pressure', 'specific_internal_energy'):
+        res.obligations += 1
+        res.evaluations += 1
+        res.nontrivial += 1
+        if name not in f1 or name not in f2:
+            raise AnalysisError('field %s missing from Noh / Cog19' % name)
+        a, b_ = f1[name], f2[name]
+        la = {tuple((ck, pol) for ck, pol, _ in c): l for c, l in leaves(a)}
+        lb = {tuple((ck, pol) for ck, pol, _ in c): l for c, l in leaves(b_)}
+        ok = set(la) == set(lb) and all((la[k] is NAN and lb[k] is NAN) or (la[k] is not NAN and lb[k] is not NAN and same(la[k], lb[k]))
+                                        for k in la)
+        if not ok and len(la) == len(lb) == 2:
+            # same two pieces with differently written (but equal) shock-position tests
+            va, vb = sorted(la.items(), key=lambda kv: kv[0][0][1]), sorted(lb.items(), key=lambda kv: kv[0][0][1])
+            ok = all(x[1] is not NAN and y[1] is not NAN and same(x[1], y[1]) for x, y in zip(va, vb))
+        if ok:
+            res.discharged += 1
+            res.sample({'rule': 'C07.noh-cog19', 'field': name, 'pieces': len(la)}, limit=30)
+        else:
+            res.add(_f('C07.noh-cog19', ci, "field '%s'" % name,
+                       "Noh and its Coggeshall form Cog19 return different expressions for '%s' (with u0 = -|u0|): %s versus %s"
+                       % (name, (a.key() if a is not NAN else 'NaN')[:200], (b_.key() if b_ is not NAN else 'NaN')[:200])))
+
+
 BURN = ['exactpack.solvers.kenamond.kenamond1:Kenamond1', 'exactpack.solvers.kenamond.kenamond2:Kenamond2',
         'exactpack.solvers.kenamond.kenamond3:Kenamond3']
 
@@ -365,4 +421,5 @@ def run(model, tier):
                          "side, so the ideal-gas and general-EOS routes disagree whenever the two states differ in that component")
     from . import c14_modes
     c14_modes.rod_mirror(model, res)
+    noh_vs_cog19(model, res)
     return res
